@@ -228,7 +228,7 @@ func init() {
 					}
 					// learn the valid reply for this op
 					var good []byte
-					line, impl, _ := s.exchange(op, "timeout", true, func(w wireReq) [][]byte {
+					line, impl, w0 := s.exchange(op, "timeout", true, func(w wireReq) [][]byte {
 						good = rtuFrame(w.unit, w.fc, taggedReply(w, 0x1234))
 						return [][]byte{good}
 					})
@@ -237,48 +237,79 @@ func init() {
 						res.Add(Finding{Kind: "property", Check: "valid-reply", Line: line, Impl: impl, Expect: "ok", Note: "a valid RTU reply was not accepted"})
 						continue
 					}
-					var cors []corruption
-					if wi == 0 {
-						cors = append(cors, corruption{"corpus-f7", nil})
-					}
-					cors = append(cors, genCorruptions(wr, len(good)*8, tier)...)
-					for i := 0; i < 20; i++ {
-						cors = append(cors, corruption{"crcfield", nil})
-					}
-					for _, c := range cors {
-						bad := flipBits(good, c.bits)
-						switch c.label {
-						case "crcfield":
-							bad = append([]byte(nil), good...)
-							bad[len(bad)-2], bad[len(bad)-1] = byte(wr.U64()), byte(wr.U64())
-							if hx(bad) == hx(good) {
-								bad[len(bad)-1] ^= 0x40
+					bases := []struct {
+						label string
+						frame []byte
+					}{{"", good}}
+					{ // valid exception replies (from the addressed unit and from a gateway, unit 255), received alone
+						w := w0
+						if w.ok {
+							code := []byte{1, 2, 3, 4, 5, 6, 8, 10, 11}[wr.Intn(9)]
+							bases = append(bases, struct {
+								label string
+								frame []byte
+							}{"exc/", rtuFrame(w.unit, w.fc|0x80, []byte{code})})
+							if wi%4 == 1 {
+								bases = append(bases, struct {
+									label string
+									frame []byte
+								}{"excgw/", rtuFrame(0xff, w.fc|0x80, []byte{0x0b})})
 							}
-						case "corpus-f7":
-							bad = f7Reply
 						}
-						line, impl, _ := s.exchange(op, "timeout", true, func(w wireReq) [][]byte { return randomChunks(wr, bad) })
-						local = append(local, [2]string{line, impl})
-						res.Eval("corrupt/"+op.Name+"/"+c.label+"/"+field(impl, "r"), true, line+" => "+impl)
-						res.Count("corruption:" + c.label)
-						if isOK(impl) {
-							res.Add(Finding{Kind: "property", Check: "corruption-accepted", Line: line, Impl: impl, Expect: "an error", Note: c.label + " error in an RTU reply was reported as success"})
-						}
-						if c.label == "crcfield" && field(impl, "r") != "err:ErrBadCRC" {
-							res.Add(Finding{Kind: "property", Check: "crcfield", Line: line, Impl: impl, Expect: "err:ErrBadCRC"})
-						}
-						// resynchronisation: the next exchange with a well-behaved device must succeed
-						pendAfter := field(impl, "pend")
-						line2, impl2, _ := s.exchange(op, "timeout", false, func(w wireReq) [][]byte {
-							return [][]byte{rtuFrame(w.unit, w.fc, taggedReply(w, 0x4321))}
-						})
-						local = append(local, [2]string{line2, impl2})
-						if !isOK(impl2) {
-							note := "after a rejected corrupted reply the next exchange with a well-behaved device failed"
-							if pendAfter != "-" && field(impl, "r") != "err:ErrBadCRC" && field(impl, "r") != "err:ErrShortFrame" {
-								note = "F7-class: transport accepted a shortened frame, client-level validation rejected it without flushing; " + fmt.Sprint(len(pendAfter)/2) + " bytes stayed queued; " + note
+					}
+					for _, base := range bases {
+						good := base.frame
+						if base.label != "" {
+							line, impl, _ := s.exchange(op, "timeout", true, func(w wireReq) [][]byte { return [][]byte{good} })
+							local = append(local, [2]string{line, impl})
+							if isOK(impl) || !strings.HasPrefix(field(impl, "r"), "err:Err") || field(impl, "r") == "err:ErrBadCRC" || field(impl, "r") == "err:ErrProtocolError" || field(impl, "r") == "err:ErrRequestTimedOut" {
+								res.Add(Finding{Kind: "property", Check: "valid-exception", Line: line, Impl: impl, Expect: "the mapped exception error", Note: "a valid RTU exception reply was not reported as its exception"})
+								continue
 							}
-							res.Add(Finding{Kind: "property", Check: "resync", Line: line + " ;; " + line2, Impl: impl + " ;; " + impl2, Expect: "second exchange ok", Note: note})
+						}
+						var cors []corruption
+						if wi == 0 && base.label == "" {
+							cors = append(cors, corruption{"corpus-f7", nil})
+						}
+						cors = append(cors, genCorruptions(wr, len(good)*8, tier)...)
+						for i := 0; i < 20; i++ {
+							cors = append(cors, corruption{"crcfield", nil})
+						}
+						for _, c := range cors {
+							bad := flipBits(good, c.bits)
+							switch c.label {
+							case "crcfield":
+								bad = append([]byte(nil), good...)
+								bad[len(bad)-2], bad[len(bad)-1] = byte(wr.U64()), byte(wr.U64())
+								if hx(bad) == hx(good) {
+									bad[len(bad)-1] ^= 0x40
+								}
+							case "corpus-f7":
+								bad = f7Reply
+							}
+							line, impl, _ := s.exchange(op, "timeout", true, func(w wireReq) [][]byte { return randomChunks(wr, bad) })
+							local = append(local, [2]string{line, impl})
+							res.Eval("corrupt/"+base.label+op.Name+"/"+c.label+"/"+field(impl, "r"), true, line+" => "+impl)
+							res.Count("corruption:" + base.label + c.label)
+							if isOK(impl) {
+								res.Add(Finding{Kind: "property", Check: "corruption-accepted", Line: line, Impl: impl, Expect: "an error", Note: c.label + " error in an RTU reply was reported as success"})
+							}
+							if c.label == "crcfield" && field(impl, "r") != "err:ErrBadCRC" {
+								res.Add(Finding{Kind: "property", Check: "crcfield", Line: line, Impl: impl, Expect: "err:ErrBadCRC"})
+							}
+							// resynchronisation: the next exchange with a well-behaved device must succeed
+							pendAfter := field(impl, "pend")
+							line2, impl2, _ := s.exchange(op, "timeout", false, func(w wireReq) [][]byte {
+								return [][]byte{rtuFrame(w.unit, w.fc, taggedReply(w, 0x4321))}
+							})
+							local = append(local, [2]string{line2, impl2})
+							if !isOK(impl2) {
+								note := "after a rejected corrupted reply the next exchange with a well-behaved device failed"
+								if pendAfter != "-" && field(impl, "r") != "err:ErrBadCRC" && field(impl, "r") != "err:ErrShortFrame" {
+									note = "F7-class: transport accepted a shortened frame, client-level validation rejected it without flushing; " + fmt.Sprint(len(pendAfter)/2) + " bytes stayed queued; " + note
+								}
+								res.Add(Finding{Kind: "property", Check: "resync", Line: line + " ;; " + line2, Impl: impl + " ;; " + impl2, Expect: "second exchange ok", Note: note})
+							}
 						}
 					}
 				}
